@@ -190,7 +190,7 @@ func init() {
 			"'no trace' is decided on the canonical state text, which covers content, slab structure, which layer holds each slab, and slabs not reachable from a root",
 			"callback-failure injection is applied to lookups (Get/Has/open), as the property states",
 		}
-		or := []string{"sem", "oob", "notrace", "badids", "inject", "reopen"}
+		or := []string{"sem", "oob", "notrace", "badids", "inject", "ranges", "reopen"}
 		L, K := 4, 3
 		if r.Thorough() {
 			L, K = 5, 4
@@ -219,7 +219,7 @@ func init() {
 		if r.Thorough() {
 			step = 2
 		}
-		tor := []string{"sem", "oob", "notrace", "inject", "badids"}
+		tor := []string{"sem", "oob", "notrace", "inject", "badids", "ranges"}
 		for _, sc := range []string{"arr-append-lim", "arr-mixed"} {
 			ts = append(ts, TrajSpecs(r.ID, sc, 70, 1, 71, step, 1, 256, []string{"limA+"}, tor)...)
 		}
@@ -229,7 +229,7 @@ func init() {
 		r.ExploreSpecs(ts)
 		// through nested handles
 		ns := []Spec{
-			{Name: "rej-nested-arr", Kind: "nested", T: 256, Keys: 2, Classes: []string{"t", "h", "A", "M"}, Oracles: []string{"sem", "struct", "oob", "notrace"},
+			{Name: "rej-nested-arr", Kind: "nested", T: 256, Keys: 2, Classes: []string{"t", "h", "A", "M"}, Oracles: []string{"sem", "struct", "oob", "notrace", "ranges"},
 				Extra: map[string]int{"rootmap": 0, "lr": 2, "lc": 2, "maxc": 3, "depth": 2, "nosettype": 1, "rej": 1}},
 			{Name: "rej-nested-map", Kind: "nested", T: 256, Keys: 2, Classes: []string{"t", "h", "A", "M"}, Oracles: []string{"sem", "struct", "oob", "notrace"},
 				Extra: map[string]int{"rootmap": 1, "lr": 2, "lc": 2, "maxc": 3, "depth": 2, "nosettype": 1, "rej": 1}},
